@@ -26,6 +26,7 @@ func reg(name, desc string, f modelFn) { models[name] = &model{f: f, desc: desc,
 func regEff(name, desc string, f modelFn) { models[name] = &model{f: f, desc: desc, pure: false} }
 
 const digestStreamField = 9001
+const bufferContentField = 9002
 
 func pureModel(full string) bool {
 	m, ok := models[full]
@@ -359,6 +360,26 @@ func init() {
 		}
 		return []Val{r}
 	})
+	// ---- bytes.Buffer as a string content; text/template.Execute appends an uninterpreted expansion
+	regEff("(*bytes.Buffer).Reset", "content becomes empty", func(ex *Exec, a []Val, st *State, sig *types.Signature) []Val {
+		st.heap.storeLeaf(Fld(tm(a[0]), bufferContentField), StrLit(""))
+		return nil
+	})
+	reg("(*bytes.Buffer).String", "the content written so far", func(ex *Exec, a []Val, st *State, sig *types.Signature) []Val {
+		return []Val{st.heap.loadLeaf(Fld(tm(a[0]), bufferContentField), SStr)}
+	})
+	regEff("(*text/template.Template).Execute", "writes an uninterpreted expansion (a function of the template, the data and the heap at the call) to the writer if it is a *bytes.Buffer; returns an uninterpreted error; modifies nothing else", func(ex *Exec, a []Val, st *State, sig *types.Signature) []Val {
+		t := tm(a[0])
+		w := a[1].(*Agg)
+		data := flatAll(a[2:3])
+		args := append([]*Term{t, st.heap.ver}, data...)
+		out := UF("template.output", SStr, args...)
+		ok := UF("template.ok", SBool, args...)
+		buf := tm(w.F[1])
+		cur := st.heap.loadLeaf(Fld(buf, bufferContentField), SStr)
+		st.heap.storeLeaf(Fld(buf, bufferContentField), SConcat(cur, out))
+		return []Val{iteVal(ok, nilIface(), ex.nonNilErr("template", args...))}
+	})
 	// ---- slices.SortFunc: afterwards adjacent elements are ordered by the comparator (permutation not modelled)
 	regEff("slices.SortFunc", "elements are permuted so that cmp(s[j], s[j+1]) <= 0 for adjacent elements; only this ordering fact is assumed, contents are otherwise arbitrary", func(ex *Exec, a []Val, st *State, sig *types.Signature) []Val {
 		sl := a[0].(*Agg)
@@ -415,6 +436,9 @@ func (ex *Exec) ghostByName(pkgPath, name string) *GhostDecl {
 // (keyed by the flattened argument when unary, a single cell when nullary).
 func (ex *Exec) ghostApply(st *State, g *GhostDecl, args []*Term, rt types.Type) Val {
 	rs := leafSort(rt)
+	if g.Name == "bufferContent" && len(args) == 1 {
+		return st.heap.loadLeaf(Fld(args[0], bufferContentField), SStr)
+	}
 	if g.Name == "digestStream" && len(args) == 1 {
 		// the byte stream written so far to an xxhash digest (state of the xxhash model)
 		return st.heap.loadLeaf(Fld(args[0], digestStreamField), SStr)
